@@ -12,6 +12,8 @@
 //!   malformed  a generated stream with one frame damaged (protocol violation) at a generated
 //!              position: the handler returns at EOF, does not panic, replies to the commands
 //!              before the damage are unchanged and the next reply is an error
+//!   conn_sequence  2-6 connections one after another on ONE ConnectionPool and one keyspace,
+//!              some ending abnormally: each writes exactly what it writes on a fresh pool
 //!   probes     deterministic reproducers of the open findings
 
 mod drive;
@@ -683,6 +685,146 @@ fn lenient_outcome(
 }
 
 // ---------------------------------------------------------------------------------------
+// check 3: a sequence of connections on one buffer pool
+// ---------------------------------------------------------------------------------------
+
+/// How a connection ends.
+#[derive(Clone, Debug, Serialize, Deserialize)]
+enum End {
+    /// EOF after the last complete command
+    Clean,
+    /// the client hangs up in the middle of a frame: a strict prefix of `extra`'s encoding
+    /// (cut position = fraction `at`) follows the commands
+    CutMidFrame { extra: Argv, at: u16 },
+    /// a frame larger than the (small) max_buffer_size follows the commands
+    Overflow { max_buffer_size: u16, read_buffer_size: u8 },
+    /// the socket stops accepting writes after `after` bytes: error, or 0 bytes accepted
+    WriteFail { after: u16, zero: bool },
+    /// a damaged frame follows the commands
+    Malformed { base: Argv, line: u16, bad: Bad },
+}
+
+impl End {
+    fn label(&self) -> &'static str {
+        match self {
+            End::Clean => "end:clean",
+            End::CutMidFrame { .. } => "end:cut_mid_frame",
+            End::Overflow { .. } => "end:buffer_overflow",
+            End::WriteFail { .. } => "end:write_failure",
+            End::Malformed { .. } => "end:malformed_frame",
+        }
+    }
+}
+
+#[derive(Clone, Debug, Serialize, Deserialize)]
+struct ConnSpec {
+    cmds: Vec<Argv>,
+    end: End,
+    run: RunSpec,
+}
+
+#[derive(Clone, Debug, Serialize, Deserialize)]
+struct SeqCase {
+    shards: u8,
+    /// number of pooled buffers of the shared ConnectionPool
+    pool_size: u8,
+    conns: Vec<ConnSpec>,
+}
+
+fn build_seq_conn(c: &ConnSpec) -> drive::SeqConn {
+    let mut raw: Vec<Vec<u8>> = c.cmds.iter().map(|a| vcore::resp::encode_command(a)).collect();
+    let mut cfg = c.run.cfg.clone();
+    let mut fault = None;
+    match &c.end {
+        End::Clean => {}
+        End::CutMidFrame { extra, at } => {
+            let enc = vcore::resp::encode_command(extra);
+            if enc.len() >= 2 {
+                let k = 1 + ((*at as usize * (enc.len() - 1)) >> 16);
+                raw.push(enc[..k.min(enc.len() - 1)].to_vec());
+            }
+        }
+        End::Overflow { max_buffer_size, read_buffer_size } => {
+            let max = (*max_buffer_size as u32).max(32);
+            cfg.max_buffer_size = max;
+            cfg.read_buffer_size = (*read_buffer_size as u32).clamp(8, max);
+            raw.push(vcore::resp::encode_command(&vec![
+                b"SET".to_vec(),
+                b"k0".to_vec(),
+                vec![b'o'; max as usize * 2 + 50],
+            ]));
+        }
+        End::WriteFail { after, zero } => fault = Some((*after as usize, *zero)),
+        End::Malformed { base, line, bad } => raw.push(gen::damaged_frame(base, *line, bad).0),
+    }
+    let st = Stream::from_raw(&raw);
+    let cs = cuts(&c.run.seg, &st);
+    let reads = effective_reads(st.bytes.len(), &cs, cfg.read_buffer_size as usize);
+    drive::SeqConn {
+        chunks: chunks_of(&st.bytes, &cs),
+        cfg,
+        io: c.run.io,
+        write_fault: fault,
+        turn_budget: budget(raw.len(), reads.len()),
+    }
+}
+
+/// Every connection of the sequence, run on ONE shared buffer pool, must write exactly the
+/// bytes it writes when every connection gets a fresh pool (same commands, same prior
+/// keyspace): replies depend on the keyspace, never on which buffers the pool hands out.
+fn check_sequence(case: &SeqCase, ctx: &mut CaseCtx<'_>) -> Result<(), String> {
+    if case.conns.is_empty() {
+        return Ok(());
+    }
+    let shards = case.shards.max(1) as usize;
+    let pool = case.pool_size.max(1) as usize;
+    ctx.label(&format!("pool:{}", pool));
+    for c in &case.conns {
+        ctx.label(c.end.label());
+    }
+    let shared = drive::run_sequence(case.conns.iter().map(build_seq_conn).collect(), shards, Some(pool));
+    let alone = drive::run_sequence(case.conns.iter().map(build_seq_conn).collect(), shards, None);
+    for (i, ((s, a), c)) in shared.iter().zip(alone.iter()).zip(case.conns.iter()).enumerate() {
+        let what = format!(
+            "connection #{} of {} ({}, {} commands) on a shared pool of {} buffers",
+            i,
+            case.conns.len(),
+            c.end.label(),
+            c.cmds.len(),
+            pool
+        );
+        verdict_basic(a, &format!("connection #{} run on a fresh pool", i))?;
+        verdict_basic(s, &what)?;
+        if s.out != a.out {
+            let common = s.out.iter().zip(a.out.iter()).take_while(|(x, y)| x == y).count();
+            let from = common.saturating_sub(40);
+            return Err(format!(
+                "{} wrote different bytes than the same connection on a fresh pool (same commands, same prior keyspace); first difference at byte {}\n  shared pool: …{:?}\n  fresh pool:  …{:?}\n  its commands: {}\n  earlier connections ended: {}",
+                what,
+                common,
+                vcore::show(&s.out[from..s.out.len().min(common + 160)]),
+                vcore::show(&a.out[from..a.out.len().min(common + 160)]),
+                show_cmds(&c.cmds),
+                case.conns[..i].iter().map(|x| x.end.label()).collect::<Vec<_>>().join(", ")
+            ));
+        }
+    }
+    // non-trivial: an abnormally ended connection whose buffers a later connection of the
+    // sequence draws from the FIFO pool (each connection takes two buffers and returns two)
+    let lag = (pool / 2).max(1);
+    let reused = case
+        .conns
+        .iter()
+        .enumerate()
+        .any(|(j, c)| !matches!(c.end, End::Clean) && j + lag < case.conns.len());
+    if reused {
+        ctx.label("nt:abnormal_end_then_buffer_reuse");
+        ctx.nontrivial(&serde_json::to_string(case).unwrap_or_default());
+    }
+    Ok(())
+}
+
+// ---------------------------------------------------------------------------------------
 // strategies for the cases
 // ---------------------------------------------------------------------------------------
 
@@ -721,6 +863,43 @@ fn bad_case() -> impl Strategy<Value = BadCase> {
         })
 }
 
+fn ordered_commands(max_pieces: usize) -> impl Strategy<Value = Vec<Argv>> {
+    // hash-map-ordered replies differ between two server instances: keep them out, the
+    // comparison of this sub-check is byte for byte
+    gen::command_list(max_pieces, false).prop_map(|mut v| {
+        v.retain(|c| unordered_class(c) == 0 || vcore::gen::cmd_name(c) == "EXEC");
+        if v.is_empty() {
+            v.push(argv(&["PING"]));
+        }
+        v
+    })
+}
+
+fn conn_spec() -> impl Strategy<Value = ConnSpec> {
+    let end = prop_oneof![
+        4 => Just(End::Clean),
+        4 => (gen::bad_base(), any::<u16>()).prop_map(|(extra, at)| End::CutMidFrame { extra, at }),
+        1 => (any::<u16>()).prop_map(|at| End::CutMidFrame {
+            extra: vec![b"SET".to_vec(), b"k1".to_vec(), vec![b'p'; 300]],
+            at
+        }),
+        3 => (prop_oneof![Just(64u16), Just(128), Just(256)], prop_oneof![Just(16u8), Just(64)])
+            .prop_map(|(max_buffer_size, read_buffer_size)| End::Overflow { max_buffer_size, read_buffer_size }),
+        3 => (prop_oneof![4 => (0u16..40), 1 => (40u16..400)], any::<bool>()).prop_map(|(after, zero)| End::WriteFail { after, zero }),
+        1 => (gen::bad_base(), any::<u16>(), gen::bad()).prop_map(|(base, line, bad)| End::Malformed { base, line, bad }),
+    ];
+    (ordered_commands(6), end, run_spec()).prop_map(|(cmds, end, run)| ConnSpec { cmds, end, run })
+}
+
+fn seq_case() -> impl Strategy<Value = SeqCase> {
+    (
+        prop_oneof![3 => Just(1u8), 1 => Just(3u8)],
+        prop_oneof![4 => Just(2u8), 3 => Just(4u8), 1 => Just(64u8)],
+        proptest::collection::vec(conn_spec(), 2..7),
+    )
+        .prop_map(|(shards, pool_size, conns)| SeqCase { shards, pool_size, conns })
+}
+
 fn argv(parts: &[&str]) -> Argv {
     parts.iter().map(|s| s.as_bytes().to_vec()).collect()
 }
@@ -740,6 +919,7 @@ fn debug_main(rest: &[String]) -> ! {
         min_pipeline_buffer: num(1, u64::MAX),
         batch_threshold: num(2, 2) as u32,
         read_buffer_size: num(3, 8192) as u32,
+        max_buffer_size: 0,
     };
     let esc = rest.get(4).cloned().unwrap_or_default();
     let mut bytes = Vec::new();
@@ -783,7 +963,8 @@ fn main() {
          and generated ConnectionConfig (min_pipeline_buffer in {1,14,60,70,1e9}, batch_threshold in {1,2,6,16}, read_buffer_size in {16,64,8192}), 1 or 3 shards. \
          malformed: such a stream with one frame damaged (bad type byte, wrong element type, negative length, non-numeric length, CR without LF, huge/overflowing length, inline text). \
          non-trivial = (>= 3 commands and >= 1 read boundary strictly inside a frame) or a GET/SET run within +-1 of batch_threshold collected with the buffer >= min_pipeline_buffer; \
-         for malformed streams: >= 2 surrounding commands or >= 1 cut. distinct by (stream bytes, segmentations, configurations)",
+         for malformed streams: >= 2 surrounding commands or >= 1 cut; for connection sequences: an abnormally ended connection whose pooled buffers a later connection of the sequence draws. \
+         distinct by (stream bytes, segmentations, configurations) resp. the whole sequence",
         &args,
     );
     s.assume("the harness' strict RESP2 reply decoder (vcore::resp) and its command encoder");
@@ -799,7 +980,7 @@ fn main() {
         json!({"cmds": [["GET","k0"],["INCR","k1"]], "min_pipeline_buffer": 14, "batch_threshold": 2, "segmentation": "whole"}),
         || {
             let st = Stream::from_cmds(&[argv(&["GET", "k0"]), argv(&["INCR", "k1"])]);
-            let cfg = Cfg { min_pipeline_buffer: 14, batch_threshold: 2, read_buffer_size: 8192 };
+            let cfg = Cfg { min_pipeline_buffer: 14, batch_threshold: 2, read_buffer_size: 8192, max_buffer_size: 0 };
             let r = run_handler(vec![st.bytes.clone()], &cfg, 1, Io::default(), 10_000);
             match decode_stream(&r.out) {
                 Ok(v) if v.len() == 2 && r.panic.is_none() && r.finished => None,
@@ -883,7 +1064,7 @@ fn main() {
         "streams",
         "well-formed command streams x two (segmentation, config) runs vs the one-command-per-read reference: reply count, reply sequence, byte identity of the two runs",
     );
-    s.run_cases("streams", s.scale(150_000, 3_000_000), || stream_case(false), check_stream);
+    s.run_cases("streams", s.scale(100_000, 3_000_000), || stream_case(false), check_stream);
     s.describe_check(
         "streams_with_triggers",
         "the same with commands that trip open crash findings mixed in (excluded and counted while those are open; ordinary streams once they are fixed)",
@@ -893,6 +1074,11 @@ fn main() {
         "malformed",
         "a stream with one damaged frame: handler returns at EOF, no panic, earlier replies unchanged, the next reply is an error",
     );
-    s.run_cases("malformed", s.scale(100_000, 2_000_000), bad_case, check_bad);
+    s.run_cases("malformed", s.scale(60_000, 2_000_000), bad_case, check_bad);
+    s.describe_check(
+        "conn_sequence",
+        "2-6 connections run one after another on ONE ConnectionPool (2, 4 or 64 pooled buffers) and one keyspace, some ending abnormally (EOF inside a frame, max_buffer_size exceeded, write failure, malformed frame): each must write exactly the bytes it writes when every connection gets a fresh pool",
+    );
+    s.run_cases("conn_sequence", s.scale(15_000, 400_000), seq_case, check_sequence);
     s.finish();
 }
